@@ -42,7 +42,7 @@ func init() {
 		},
 		N: func(t string) int {
 			if t == "thorough" {
-				return 1600
+				return 4800
 			}
 			return 96
 		},
